@@ -248,6 +248,16 @@ def run_time(case, r):
         for typ in merged:
             merged[typ] = canon(merged[typ])
         refc = {k: canon(v) for k, v in ref.items() if not k.startswith('_')}
+        # known mechanism: both controllers decide "is there another step" by time < Tend - 10*eps (absolute) but accumulate the
+        # start times differently (serial: t += dt step by step; parallel: t_block + sum(dt[:slot])); when Tend lies on a step
+        # boundary at |t| > ~8 the two sums differ by more than the guard and one controller takes one whole step more
+        a_, b_ = refc['niter'], merged.get('niter', [])
+        if case.get('exact_end') and abs(len(a_) - len(b_)) == 1:
+            longer = a_ if len(a_) > len(b_) else b_
+            if abs(longer[-1][0] - Tend) <= 16 * np.spacing(abs(Tend)) and all(abs(x[0] - y[0]) <= (4 + i_ // max(1, procs)) * np.spacing(max(abs(x[0]), 1.0)) for i_, (x, y) in enumerate(zip(a_, b_))):
+                r.check(False, 'same-steps', f"{stag}: {len(b_)} steps over all ranks, serial run has {len(a_)}: the step starting at t={longer[-1][0]!r} (Tend={Tend!r}) is taken by only one of the two controllers", mech='end-of-run-decision-differs-by-rounding-of-accumulated-start-time')
+                r.count('end_of_run_rounding_ties')
+                continue
         for typ in ('niter', 'restart', 'dt'):
             a, b = refc[typ], merged.get(typ, [])
             same_len = len(a) == len(b)
